@@ -31,11 +31,20 @@ type Sched struct {
 	Steps       int
 	// Filter, if set, decides whether a Point with this label parks (true) or passes through.
 	Filter func(label string) bool
+	// NameByLabel: goroutines that are not harness threads are identified by entry function and
+	// the label they are parked at (plus an arrival counter among equals) instead of by arrival
+	// order alone. For components that start interchangeable goroutines in map-iteration order.
+	NameByLabel bool
+	// StrictOrder: every alternative but the first costs one deviation (not only switches away
+	// from the goroutine that ran last). For harnesses with a canonical base schedule.
+	StrictOrder bool
+	lastGid     uint64
 }
 
 type parkedG struct {
 	name  string
 	label string
+	gid   uint64
 	grant chan struct{}
 }
 
@@ -153,7 +162,16 @@ func (s *Sched) Point(label string) {
 	}
 	gid := curGid()
 	name, ok := s.byGid[gid]
-	if !ok {
+	if !ok && s.NameByLabel {
+		base := entryFunc() + ":" + label
+		name = base
+		for n := 2; ; n++ {
+			if _, taken := s.parked[name]; !taken {
+				break
+			}
+			name = fmt.Sprintf("%s#%d", base, n)
+		}
+	} else if !ok {
 		base := entryFunc()
 		s.nameCnt[base]++
 		name = base
@@ -162,7 +180,7 @@ func (s *Sched) Point(label string) {
 		}
 		s.byGid[gid] = name
 	}
-	p := &parkedG{name: name, label: label, grant: make(chan struct{})}
+	p := &parkedG{name: name, label: label, gid: gid, grant: make(chan struct{})}
 	s.parked[name] = p
 	s.mu.Unlock()
 	<-p.grant
@@ -212,6 +230,14 @@ func (s *Sched) Step(actions []Action) bool {
 	}
 	sort.Strings(names)
 	lastEnabled := false
+	if s.NameByLabel && s.lastGid != 0 {
+		s.last = ""
+		for n, p := range s.parked {
+			if p.gid == s.lastGid {
+				s.last = n
+			}
+		}
+	}
 	if _, ok := s.parked[s.last]; ok && s.last != "" {
 		lastEnabled = true
 		rest := names[:0:0]
@@ -237,7 +263,7 @@ func (s *Sched) Step(actions []Action) bool {
 	}
 	costs := make([]int, n)
 	for i := range costs {
-		if lastEnabled && i != 0 {
+		if (lastEnabled || s.StrictOrder) && i != 0 {
 			costs[i] = 1
 		}
 		if i >= len(names) {
@@ -261,6 +287,7 @@ func (s *Sched) Step(actions []Action) bool {
 		p := s.parked[names[c]]
 		delete(s.parked, names[c])
 		s.last = names[c]
+		s.lastGid = p.gid
 		s.mu.Unlock()
 		close(p.grant)
 	} else {
@@ -272,3 +299,20 @@ func (s *Sched) Step(actions []Action) bool {
 
 // Quiesce waits until every goroutine of the bubble is durably blocked.
 func (s *Sched) Quiesce() { synctest.Wait() }
+
+// ParkedOthers returns the parked goroutines (name@label, sorted) that are not harness threads
+// started with Go/GoNow: goroutines the component under test started itself and that are
+// currently inside a hooked operation. Call only at quiescence.
+func (s *Sched) ParkedOthers() []string {
+	s.mu.Lock()
+	defer s.mu.Unlock()
+	var out []string
+	for n, p := range s.parked {
+		if _, harness := s.threads[n]; harness {
+			continue
+		}
+		out = append(out, n+"@"+p.label)
+	}
+	sort.Strings(out)
+	return out
+}
